@@ -238,7 +238,7 @@ def run_family(ctx, cases, prop):
                 for m in parsefam.OPERAND_VARIANTS[:3]:
                     if any(t in m for t in sn):
                         ptexts.append(parsefam.render(parsefam.substitute(sn, m), 1))
-            ptexts += parsefam.CURATED + parsefam.LONG_LITERALS
+            ptexts += parsefam.CURATED + parsefam.LONG_LITERALS + parsefam.COEF_POWER_FORMS
             res.rule += "; str(parse(s)) parsed back for every TLC-emitted sentence (<= %d tokens, with operand variants) and curated text" % (5 if ctx.quick else 6)
         with Pool(16) as pool:
             events += [e for l in pool.map(rewrite.print_event, sorted(set(ptexts)), chunksize=200) for e in l]
